@@ -78,7 +78,8 @@ Proof. reflexivity. Qed.
 Inductive wb : list ev -> Prop :=
 | wb_nil : wb []
 | wb_new k rest : wb rest -> wb (New k :: rest)
-| wb_block o exc body rest : wb body -> wb rest -> wb (Enter o :: body ++ Exit o exc :: rest).
+| wb_block o exc body rest : wb body -> wb rest -> wb (Enter o :: body ++ Exit o exc :: rest)
+| wb_call rest : wb rest -> wb (Call :: rest).
 
 Definition fresh (ob : obj) : Prop := saved ob = [].
 
@@ -90,7 +91,7 @@ Lemma wb_preserves t :
   wb t -> forall s s', run s t = Some s' ->
   same_modes s s' /\ exists extra, objs s' = objs s ++ extra /\ Forall fresh extra.
 Proof.
-  induction 1 as [|k rest Hrest IHrest|o exc body rest Hbody IHbody Hrest IHrest]; intros s s' Hrun.
+  induction 1 as [|k rest Hrest IHrest|o exc body rest Hbody IHbody Hrest IHrest|rest Hrest IHrest]; intros s s' Hrun.
   - simpl in Hrun. inversion Hrun; subst. split; [split; reflexivity|].
     exists []. rewrite app_nil_r. split; auto.
   - simpl in Hrun.
@@ -134,6 +135,7 @@ Proof.
     exists (extra1 ++ extra2). split.
     + rewrite Hobjs', Hobjs3, app_assoc. reflexivity.
     + apply Forall_app. split; assumption.
+  - simpl in Hrun. exact (IHrest _ _ Hrun).
 Qed.
 
 (* The property as stated for one block: the mode after the Exit equals the mode before the matching Enter. *)
@@ -160,6 +162,7 @@ Fixpoint refs_ok (n : nat) (t : list ev) : bool :=
   | New _ :: t' => refs_ok (S n) t'
   | Enter o :: t' => (o <? n) && refs_ok n t'
   | Exit o _ :: t' => (o <? n) && refs_ok n t'
+  | Call :: t' => refs_ok n t'
   end.
 
 Lemma refs_ok_app n a b :
@@ -171,6 +174,7 @@ Proof.
     + f_equal. f_equal. lia.
     + rewrite andb_assoc. reflexivity.
     + rewrite andb_assoc. reflexivity.
+    + reflexivity.
 Qed.
 
 Lemma run_length_objs t : forall s s', run s t = Some s' ->
@@ -193,12 +197,13 @@ Proof.
                 (set_objs (upd o (fun ob0 => {| okind := okind ob0; saved := r |}) (objs s)) s))) = length (objs s)).
       { unfold set_flag, set_objs. destruct (okind ob); simpl; apply upd_length. }
       lia.
+    + inversion Hs; subst. lia.
 Qed.
 
 Lemma wb_total t :
   wb t -> forall s, refs_ok (length (objs s)) t = true -> exists s', run s t = Some s'.
 Proof.
-  induction 1 as [|k rest Hrest IHrest|o exc body rest Hbody IHbody Hrest IHrest]; intros s Hok.
+  induction 1 as [|k rest Hrest IHrest|o exc body rest Hbody IHbody Hrest IHrest|rest Hrest IHrest]; intros s Hok.
   - exists s. reflexivity.
   - simpl in *. apply IHrest. simpl. rewrite app_length. simpl. rewrite Nat.add_1_r. exact Hok.
   - simpl in Hok. apply andb_true_iff in Hok. destruct Hok as [Ho Hok].
@@ -227,6 +232,7 @@ Proof.
       assert (Hl3 : length (objs s3) = length (objs s2)) end.
     { unfold set_flag, set_objs. destruct (okind ob); simpl; apply upd_length. }
     rewrite Hl3, Hl2, Hlen1. exact Hokr.
+  - simpl in *. apply IHrest. exact Hok.
 Qed.
 
 (* ---- flag resolution facts ---- *)
